@@ -35,6 +35,8 @@ int64_t w_bmp_header(uint64_t width, uint64_t height, uint32_t alpha, uint8_t* o
 #endif
 static uint8_t file_[FCAP + 1];
 static uint64_t flen_, fpos_;
+static uint64_t flen_min_; /* concrete lower bound of flen_ (harness keeps flen_min_ <= flen_): lets text-header parsing stay concrete when only the body length is symbolic */
+#define IN_FILE(pos) ((pos) < flen_min_ || (pos) < flen_)
 static uint8_t feof_;
 static uint8_t hfile_[8];
 #define HFILE (hfile_)
@@ -64,7 +66,7 @@ uint64_t STUB(fread)(uint8_t* p, uint64_t size, uint64_t n, uint8_t* f) {
    * passed) receives the array's stale bytes instead of being left alone.  freadx() throws on every short read, so the tail
    * is never looked at; keeping the copy unconditional keeps header bytes concrete for the solver whatever flen_ is. */
   uint64_t got = 0;
-  for (uint64_t i = 0; i < n; i++) { if (fpos_ + i < FCAP) p[i] = file_[fpos_ + i]; if (fpos_ + i < flen_) got++; }
+  for (uint64_t i = 0; i < n; i++) { if (fpos_ + i < FCAP) p[i] = file_[fpos_ + i]; if (IN_FILE(fpos_ + i)) got++; }
   fpos_ += n;
   if (got < n) feof_ = 1;
   return got;
@@ -81,14 +83,14 @@ uint64_t STUB(fwrite)(uint8_t* p, uint64_t size, uint64_t n, uint8_t* f) {
 }
 uint32_t STUB(fgetc)(uint8_t* f) {
   FOREIGN(f, (uint32_t)getc(f));
-  if (fpos_ >= flen_) { feof_ = 1; return (uint32_t)-1; }
+  if (!IN_FILE(fpos_)) { feof_ = 1; return (uint32_t)-1; }
   return file_[fpos_++];
 }
 uint8_t* STUB(fgets)(uint8_t* s, uint32_t n, uint8_t* f) {
   FOREIGN(f, (uint8_t*)fgets_unlocked((char*)s, (int)n, f));
   if ((int32_t)n <= 0) return 0;
   uint32_t k = 0;
-  while (k + 1 < n && fpos_ < flen_) { uint8_t c = file_[fpos_++]; s[k++] = c; if (c == '\n') break; }
+  while (k + 1 < n && IN_FILE(fpos_)) { uint8_t c = file_[fpos_++]; s[k++] = c; if (c == '\n') break; }
   if (k == 0 && n > 1) { feof_ = 1; return 0; }
   s[k] = 0;
   return s;
@@ -114,10 +116,10 @@ uint32_t STUB(__isoc99_fscanf)(uint8_t* f, uint8_t* fmt, ...) {
   ASSERT(fmt[0] == '%' && ((fmt[1] == 'z' && fmt[2] == 'u') || (fmt[1] == 'l' && fmt[2] == 'u')) && fmt[3] == 0, "UNMODELLED fscanf format");
   uint64_t* out = va_arg(va, uint64_t*);
   va_end(va);
-  while (fpos_ < flen_ && (file_[fpos_] == ' ' || (file_[fpos_] >= 9 && file_[fpos_] <= 13))) fpos_++;
-  if (fpos_ >= flen_) { feof_ = 1; return (uint32_t)-1; }
+  while (IN_FILE(fpos_) && (file_[fpos_] == ' ' || (file_[fpos_] >= 9 && file_[fpos_] <= 13))) fpos_++;
+  if (!IN_FILE(fpos_)) { feof_ = 1; return (uint32_t)-1; }
   uint64_t v = 0; uint32_t nd = 0;
-  while (fpos_ < flen_ && file_[fpos_] >= '0' && file_[fpos_] <= '9') { v = v * 10 + (uint64_t)(file_[fpos_] - '0'); fpos_++; nd++; }
+  while (IN_FILE(fpos_) && file_[fpos_] >= '0' && file_[fpos_] <= '9') { v = v * 10 + (uint64_t)(file_[fpos_] - '0'); fpos_++; nd++; }
   if (nd == 0) return 0;
   *out = v;
   return 1;
@@ -180,6 +182,8 @@ void STUB(_ZN5phosg13string_printfB5cxx11EPKcz)(uint8_t* sret, uint8_t* fmt, ...
 }
 #endif
 
-static void file_reset(void) { flen_ = 0; fpos_ = 0; feof_ = 0; }
-static void file_rewind(uint64_t new_len) { flen_ = new_len; fpos_ = 0; feof_ = 0; }
+static void file_reset(void) { flen_ = 0; flen_min_ = 0; fpos_ = 0; feof_ = 0; }
+static void file_rewind(uint64_t new_len) { flen_ = new_len; flen_min_ = 0; fpos_ = 0; feof_ = 0; }
+/* symbolic length with a concrete lower bound */
+static void file_rewind_min(uint64_t new_len, uint64_t concrete_min) { ASSUME(new_len >= concrete_min); flen_ = new_len; flen_min_ = concrete_min; fpos_ = 0; feof_ = 0; }
 #endif
